@@ -1226,7 +1226,9 @@ def history_case(ctx, r, lines, checks, directed=None):
                 do(f'poly.relabel_variables({mp!r})')
                 new = {frozenset(mp.get(v, v) for v in t): b for t, b in ref.items()}
                 ref.clear(); ref.update(new)
-                hist['ops'].append(None)                # relabel_variables is not in the object model: start again from the current terms
+                # conflict-free mappings are in the object model (Red.safeRelabel / relabelStep); a swap / cycle goes through
+                # resolve_label_conflict (not modelled): the model history starts again from the current terms
+                hist['ops'].append('relabel@' + ','.join(f'{lab(a)}>{lab(b)}' for a, b in mp.items()) if kind == 'relabel' else None)
         state['last'] = kind; state['since'].append(kind)
         ctx.tick(f'history:mut:{kind}')
         try:
@@ -1241,17 +1243,27 @@ def history_case(ctx, r, lines, checks, directed=None):
         if state['ok'] and r.random() < .12:
             vs = sorted({v for t in ref for v in t}, key=repr) + ['zz']
             t = frozenset(r.sample(vs, min(len(vs), r.randint(1, 3))) + ['zz'])
-            how = r.choice(['del', 'iadd', 'pop'])
-            stmt = {'del': f'del poly[{tuple(t)!r}]', 'iadd': f'poly[{tuple(t)!r}] += 1.0', 'pop': f'poly.pop({tuple(t)!r})'}[how]
+            how = r.choice(['del', 'iadd', 'pop'] + (['relabel-same', 'relabel-existing'] if len(vs) >= 3 else []))
+            if how.startswith('relabel'):
+                a, b = r.sample(vs[:-1], 2)
+                mpx = {a: 'q9', b: 'q9'} if how == 'relabel-same' else {a: b}
+            stmt = {'del': f'del poly[{tuple(t)!r}]', 'iadd': f'poly[{tuple(t)!r}] += 1.0', 'pop': f'poly.pop({tuple(t)!r})'}.get(how) or f'poly.relabel_variables({mpx!r})'
             try:
                 exec(stmt, env); raised = None
             except Exception as e:  # noqa
                 raised = type(e).__name__
             ctx.tick(f'history:refusal:{how}')
-            lines.append(f"hist {vt} {hist['base']} " + '!'.join(hist['ops'] + [('iadd@' + tl(t) + '@1') if how == 'iadd' else 'del@' + tl(t)]))
-            checks.append((f'BinaryPolynomial.{how} of an absent term vs Red.applyOp', how, 'ok ?' if raised is None else f'err {raised}', pre + '\n'.join(stmts) + '\n' + stmt + '\n', False))
-            if raised is None:
-                fail('BinaryPolynomial', f'{how} of an absent term does not raise', f'{vt} {raw!r} after {stmts[2:]!r}: {stmt}', f'try:\n    {stmt}\n    ok = False\nexcept KeyError:\n    ok = True\nassert ok')
+            bad_op = (('iadd@' + tl(t) + '@1') if how == 'iadd' else 'relabel@' + ','.join(f'{lab(a_)}>{lab(b_)}' for a_, b_ in mpx.items()) if how.startswith('relabel') else 'del@' + tl(t))
+            lines.append(f"hist {vt} {hist['base']} " + '!'.join(hist['ops'] + [bad_op]))
+            checks.append((f'BinaryPolynomial: refused {how} vs Red.applyOp', how, 'ok ?' if raised is None else f'err {raised}', pre + '\n'.join(stmts) + '\n' + stmt + '\n', False))
+            exc = 'ValueError' if how.startswith('relabel') else 'KeyError'
+            if raised != exc:
+                fail('BinaryPolynomial', f'{how}: {exc} expected', f'{vt} {raw!r} after {stmts[2:]!r}: {stmt}: {raised}', f'try:\n    {stmt}\n    ok = False\nexcept {exc}:\n    ok = True\nassert ok')
+            else:
+                try:
+                    env['reads'](env['poly'], ref)      # a refused mutation leaves the object as it was
+                except Exception as e:  # noqa
+                    fail('BinaryPolynomial', f'refused {how} changes the object', f'{vt} {raw!r} after {stmts[2:]!r}: {stmt}: {e}', f'try:\n    {stmt}\nexcept {exc}:\n    pass\nreads(poly, P)')
 
     def hist_line(why):
         if hist['ops']:
